@@ -633,8 +633,8 @@ static void gen_one(void) {
     else { mode = 'n'; flags = rng_chance(60) ? 16 : 0; mask &= 0xf; if (rng_chance(50)) mask |= (unsigned long) rng_next() & 0xf; }
     emit("restrict %c %lx %lu", mode, mask & 0xffffffffUL, flags); bump("restrict");
   }
-  else if (r < 968) { emit("refresh"); bump("refresh"); }
-  else if (r < 965) { emit("dup"); bump("dup"); }
+  else if (r < 963) { emit("refresh"); bump("refresh"); }
+  else if (r < 968) { emit("dup"); bump("dup"); }      /* (was unreachable behind the refresh branch) */
   else if (r < 980) { emit("shm"); bump("shm"); }
   else { emit("xml"); bump("xml"); }
 }
